@@ -78,10 +78,26 @@ unsafe fn raw_block<const EXTRA: usize>(size: usize, align: usize) -> *mut u8 {
         };
     }
     // the sizes a 32-byte-header arena with MINIMUM_CHUNK_SIZE = 1 asks for: 48 (16 B capacity), then 112, then 240
+    // Every multiple of 16 up to 256 is served (each arm a concrete-size object): on a correct tree only 48 / 112 / 240
+    // are ever requested (the requested size is a constant on each path, so the other arms cost nothing); a change
+    // that makes the library ask for another size (e.g. a wrong growth rule) is then SERVED and judged by the oracles
+    // (C10 "strictly larger", C12 "at least twice the previous size less 16") instead of being refused and reported
+    // as an unsatisfied witness.
     match size {
         48 => arm!(48),
+        64 => arm!(64),
+        80 => arm!(80),
+        96 => arm!(96),
         112 => arm!(112),
+        128 => arm!(128),
+        144 => arm!(144),
+        160 => arm!(160),
+        176 => arm!(176),
+        192 => arm!(192),
+        208 => arm!(208),
+        224 => arm!(224),
         240 => arm!(240),
+        256 => arm!(256),
         _ => core::ptr::null_mut(),
     }
 }
@@ -250,6 +266,7 @@ pub fn assert_stats_coherent<A, St: BumpAllocatorSettings>(stats: Stats<'_, A, S
             check!(c.allocated() + c.remaining() == c.capacity(), "C10: allocated + remaining != capacity (chunk)");
             if count > 0 {
                 check!(c.size() > prev_size, "C10: later chunk not strictly larger than its predecessor");
+                check!(c.size() + 16 >= 2 * prev_size, "C12: a later chunk is smaller than twice its predecessor less 16 bytes");
             }
             prev_size = c.size();
             size += c.size();
